@@ -41,6 +41,10 @@ func c12String(t *rapid.T) string {
 	case 4:
 		return string(rapid.SliceOfN(rapid.Byte(), 0, 24).Draw(t, "bytes"))
 	case 5:
+		if rapid.IntRange(0, 9).Draw(t, "hugeValue") == 0 {
+			// a value longer than 64 KiB
+			return strings.Repeat("0123456789abcdef", rapid.IntRange(4097, 5000).Draw(t, "hugeRep"))
+		}
 		return strings.Repeat(rapid.SampledFrom([]string{"x", "é", "ab ", "\""}).Draw(t, "unit"), rapid.IntRange(1200, 5000).Draw(t, "rep"))
 	case 6:
 		return rapid.SampledFrom(c12Strings).Draw(t, "a") + rapid.SampledFrom(c12Strings).Draw(t, "b")
